@@ -1,2 +1,3 @@
 import DM.Props.C12
 import DM.Props.C06
+import DM.Props.C07
